@@ -520,16 +520,16 @@ Proof.
         { rewrite (host_ok_is_host_set base Hho_b) in Ehb. destruct (hostText base); [discriminate Ehb|reflexivity]. }
         unfold auth_ok in Hau_b. rewrite Hhb in Hau_b. destruct Hau_b as [_ Hp]. rewrite Hp. reflexivity. }
   destruct dr.
-  { (* domain-root mode: the source path made absolute *)
+  { (* domain-root mode: the source path made absolute, the lone empty segment dropped *)
     assert (set_fragment (fragment src) (set_query (query src)
-              (fix_ambiguity (set_absolutePath true (copy_path empty_uri src))))
-            = build None empty_uri true (fixamb_p false true (pathSegs src)) (query src) (fragment src)) as E
-      by (rewrite fixamb_nf; destruct src as [sc1 ui1 ht1 i41 i61 if1 po1 ps1 qu1 fr1 ab1 ow1]; reflexivity).
+              (fix_ambiguity (fix_empty_trail_segment (set_absolutePath true (copy_path empty_uri src)))))
+            = build None empty_uri true (fixamb_p false true (fixtrail_p false (pathSegs src))) (query src) (fragment src)) as E
+      by (rewrite fixamb_nf, fixtrail_nf; destruct src as [sc1 ui1 ht1 i41 i61 if1 po1 ps1 qu1 fr1 ab1 ow1]; reflexivity).
     rewrite E. apply build_wf; try assumption; try exact I.
     - exact empty_uri_wf.
-    - apply pc_fixamb. exact Hps_s.
+    - apply pc_fixamb, pc_fixtrail. exact Hps_s.
     - intros Hh. destruct Hh. reflexivity.
-    - intros _. split; [apply fixamb_nodslash; exact Hps_s|]. intros _. apply nocolon1_abs. }
+    - intros _. split; [apply fixamb_nodslash, pc_fixtrail; exact Hps_s|]. intros _. apply nocolon1_abs. }
   (* the walk *)
   destruct (skip_common (pathSegs src) (pathSegs base)) as [s b] eqn:Esk.
   pose proof (pc_skip_common _ _ _ _ Hps_s Esk) as Hs.
